@@ -1,5 +1,7 @@
 import ZvbiModel.Proxy.Model
 import ZvbiModel.Proxy.Lemmas
+import ZvbiModel.Proxy.LemmasLog
+import ZvbiModel.Proxy.LemmasNF4
 /-!
 # Property C19 - the proxy daemon withstands faulty clients; channel control is held by one client
 
@@ -81,25 +83,42 @@ theorem grant_when_others_none (g : Guards) (hret : g.ret = true) (c : CState) (
   · simp only [beq_iff_eq, e, if_false] at hd ⊢
     exact Classical.byContradiction (fun hcon => e ((hi.excl y my rb hrb hd hcon (by rw [hg]; decide)).trans hhb))
 
-/-- the full history statement of grant_only_after_return (over the ghost log; see NOTES/C19.md): scanning the log of
-    any reachable state, every `granted b d` event happens while the device's holder - the client of the last grant on
-    `d` that has not since sent a return/release, a reclaim confirmation, a new token request, or gone away - is nobody
-    or `b`. -/
-def holderStep (hold : Nat → Option Nat) : Event → (Nat → Option Nat)
-  | .granted h d => fun x => if x = d then some h else hold x
-  | e => fun x => match hold x with
-    | some a => if e.frees a then none else some a
-    | none => none
+/-- **grant_only_after_return, log form (state of the token machine).**  In every state the daemon's token operations
+    can produce (both repairs present), the log of events is ordered: every grant message for device `d` is produced while
+    the log shows no holder of `d` other than the grantee - the holder being the client of the last grant on `d` that has
+    not since sent a return/release, a reclaim confirmation or a new token request, and has not gone away
+    (`Proxy/Spec.lean`).  By induction over the operations with the invariant "the holder according to the log has a
+    record of the device in GRANTED / RECLAIM / RELEASE" (`Core.LogInv`). -/
+theorem grant_only_after_return (g : Guards) (hret : g.ret = true) (hrel : g.rel = true) (c : CState) (hc : Reachable g c) :
+    grantsOrdered (fun _ => none) c.log = true :=
+  (logInv_reachable g hret hrel hc).ordered
 
-def grantsOrdered : (Nat → Option Nat) → List Event → Bool
-  | _, [] => true
-  | hold, e :: rest =>
-    (match e with
-     | .granted h d => (match hold d with | none => true | some a => a == h)
-     | _ => true) && grantsOrdered (holderStep hold e) rest
+/-- the invariant behind it: whoever holds device `d` according to the log has a record of `d` in a holder state -/
+theorem log_holder_has_record (g : Guards) (hret : g.ret = true) (hrel : g.rel = true) (c : CState) (hc : Reachable g c)
+    (d a : Nat) (h : holdOf c.log d = some a) : ∃ r ∈ c.recs, r.h = a ∧ r.dev = d ∧ Holding r.tok :=
+  (logInv_reachable g hret hrel hc).holder d a h
 
-def grant_only_after_return_full : Prop :=
-  ∀ (g : Guards), g.ret = true → g.rel = true → ∀ c, Reachable g c → grantsOrdered (fun _ => none) c.log = true
+/-- **grant_only_after_return_full** (whole histories, any scheduler).  After ANY history of daemon inputs the daemon
+    survives: if its log shows a grant message to client `a` on device `d` and later a grant message to another client
+    `b` on `d` (no other grant on `d` in between), then between the two there is `a`'s return/release message, `a`'s
+    reclaim confirmation, a new token request of `a`, or `a`'s disconnect. -/
+theorem grant_only_after_return_full (cfg : Cfg) (hret : cfg.g.ret = true) (hrel : cfg.g.rel = true) (ops : List Op)
+    (s : State cfg.g) (_h : run cfg ops = .ok s) (l1 l2 l3 : List Event) (a b d : Nat)
+    (hlog : s.core.st.log = l1 ++ Event.granted a d :: (l2 ++ Event.granted b d :: l3)) (hab : a ≠ b)
+    (hno : ∀ x, Event.granted x d ∉ l2) : ∃ e ∈ l2, e.frees a = true :=
+  grant_preceded_by_free (fun _ => none) l1 l2 l3 a b d
+    (hlog ▸ grant_only_after_return cfg.g hret hrel s.core.st s.core.ok) hab hno
+
+/-- non-vacuity: a hand-over 0 -> 1 by reclaim and confirmation produces exactly such a log -/
+example : ([COp.add 0 0, .add 1 0, .tokenReq 0 prioBACKGROUND 1, .grant 0, .sendGrant 0, .tokenReq 1 prioBACKGROUND 1, .stopped 0, .sendReclaim 0,
+      .grant 1, .reclaimCnf 0, .grant 1, .sendGrant 1].foldl (apply ⟨true, true⟩) {}).log =
+    [.tokenReq 0 0, .granted 0 0, .tokenReq 1 0, .reclaimCnf 0 0, .granted 1 0] := by decide
+
+/-- **for the current tree** (guard flags read from the source by the translator): unconditional.  If one of the two
+    repairs is reverted the flag flips and this proof no longer checks. -/
+theorem grant_only_after_return_current (ops : List Op) (s : State Cfg.current.g) (_h : run Cfg.current ops = .ok s) :
+    grantsOrdered (fun _ => none) s.core.st.log = true :=
+  grant_only_after_return Cfg.current.g rfl rfl s.core.st s.core.ok
 
 /-- **grant_only_after_return_counterexample** (unrepaired `vbi_proxyd_token_grant`): client 0 was granted the token and
     sent RECLAIM_REQ (state RELEASE); it is rescheduled (RELEASE -> GRANT), and a request of client 1 then takes the
@@ -216,10 +235,11 @@ theorem index_fields_counterexample {g : Guards} (s : State g) (h d services : N
 /-- the header check of `vbi_proxy_msg_handle_read`, repaired: after an illegal length nothing more is read, the
     function fails and the caller closes the connection - no out-of-bounds write into `msg_buf`, no assertion -/
 theorem illegal_length_rejected (cfg : Cfg) (hg : cfg.readLenGuard = true) (now : Int) (c : Client) (inq : List Nat) (shut : Bool)
-    (hoff : c.readOff < hdr)
+    (hoff : c.readOff < hdr) (hw : c.wr = none) (hl : c.readLen = 0)
     (hbad : (readHeader c now inq shut).2.2.2.2.2 = false) :
     ∃ c' rest b, handleRead cfg now c inq shut = .ok (c', rest, false, b) := by
   unfold handleRead
+  simp only [hw, hl, Option.isSome_none, Bool.false_eq_true, if_false, bne_self_eq_false, Bool.and_false]
   generalize hrh : readHeader c now inq shut = rh at hbad
   obtain ⟨c1, inq1, err, lz, cz, res⟩ := rh
   simp only at hbad
@@ -236,13 +256,63 @@ theorem owner_assert_unreachable (g : Guards) (hret : g.ret = true) (s : State g
   have h2 : ¬ ((owners s.core.st (recOf s h).dev).length > 1) := by omega
   simp [h2]
 
-/-- OPEN (not proved over whole histories): no input history makes the repaired daemon model abort or index out of
-    bounds, whatever the scheduler.  Proved pieces: `index_fields_clamped` (services[strict]), `illegal_length_rejected`
-    (header check), `owner_assert_unreachable` (get_token_owner), the two idle assertions and the flush assertion are
-    removed/guarded by the repairs (`Cfg.repaired`); missing: the invariant `readOff >= hdr -> hdr <= readLen <= msg` of
-    every client record carried through all functions of the main loop. -/
-def no_fault_full : Prop :=
-  ∀ (pick : Int → List Cand → Option Nat) (ops : List Op), ∃ s, run (Cfg.repaired pick) ops = .ok s
+/-- **no_fault_full.**  With the repairs that guard a fault site in the source (`Cfg.Repaired`: both strict clamps, the
+    length guard of handle_read, no idle assertions, the flush guard, the token-return guard) NO history of daemon inputs -
+    connects, arbitrary bytes from any client in any fragmentation, half-closes, disconnects at any byte, clock ticks,
+    alarms, frames of up to 31 lines, device variants - makes any step of the model return `.oob` or `.assertFail`,
+    whatever the scheduler picks.  The fault sites are: `services[strict]` in take_service_req, the write into `msg_buf` and
+    the three assertions of vbi_proxy_msg_handle_read (`writeLen == 0`, `readLen == 0` in phase one,
+    `readLen <= max_read_len`), the two idle assertions, `assert (p_owner == NULL)` of get_token_owner,
+    `vbi_capture_flush (NULL)`, `assert (line_count <= max_lines)` of forward_data.
+    Proof: the invariant `NF` (every record `findClient` can return has a consistent read state `RI`; every device has
+    frames of at most 31 lines and `max_lines >= 31` while open) holds initially and after every op
+    (`Proxy/LemmasNF1-4.lean`: frame rules for all functions of the main loop, `handleRead_ok`, `run_ok`). -/
+theorem no_fault_full (cfg : Cfg) (hcfg : cfg.Repaired) (ops : List Op) : ∃ s, run cfg ops = .ok s :=
+  let ⟨s, h, _⟩ := run_ok cfg hcfg ops
+  ⟨s, h⟩
+
+/-- all repairs applied, any scheduler -/
+theorem no_fault_repaired (pick : Int → List Cand → Option Nat) (ops : List Op) : ∃ s, run (Cfg.repaired pick) ops = .ok s :=
+  no_fault_full (Cfg.repaired pick) ⟨rfl, rfl, rfl, rfl, rfl, rfl⟩ ops
+
+/-- **for the current tree**: the guard flags are read from the source by the translator (`Generated/ProxyLayout.lean`);
+    if one of the six repairs is reverted its flag flips and this proof no longer checks -/
+theorem no_fault_current (ops : List Op) : ∃ s, run Cfg.current ops = .ok s :=
+  no_fault_full Cfg.current ⟨rfl, rfl, rfl, rfl, rfl, rfl⟩ ops
+
+/-- non-vacuity: an oversized length, a partial header followed by a disconnect, and a service request with strict = 127
+    are survived; the faulty connections are gone afterwards -/
+example : (run (Cfg.repaired codePick) [.connect 0, .iter, .send 0 [0xff, 0xff, 0xff, 0xff, 0, 0, 0, 5], .iter, .connect 0, .iter,
+    .send 1 [0, 0, 0], .iter, .shut 1, .iter, .iter]).toOption.map (·.clients.length) = some 0 := by decide
+
+/-- the read-state invariant itself, after every history: a record with a complete header has a legal length and an
+    offset inside the message (`msg_buf` cannot overflow), a record without has no length yet -/
+theorem read_state_invariant (cfg : Cfg) (hcfg : cfg.Repaired) (ops : List Op) (s : State cfg.g) (h : run cfg ops = .ok s)
+    (hd : Nat) (c : Client) (hf : findClient s hd = some c) : RI c := by
+  obtain ⟨s', h', n⟩ := run_ok cfg hcfg ops
+  rw [h] at h'; cases h'
+  rcases n.ci hd c hf with r | ⟨e, _⟩
+  · exact r
+  · cases e
+
+/-- the unrepaired length check: one header with length 0xffffffff aborts the daemon (`assert (readLen <= max_read_len)`);
+    replay corpus/C19/oversize-length-assert.ops -/
+theorem no_fault_counterexample :
+    (match run { Cfg.repaired codePick with readLenGuard := false } [.connect 0, .iter, .send 0 [0xff, 0xff, 0xff, 0xff, 0, 0, 0, 5], .iter] with
+     | .error e => some e
+     | .ok _ => none) = some (.assertFail "handle_read:readLen<=max_read_len") := by decide
+
+/-! ## the current tree, unconditionally -/
+
+/-- token exclusivity for the tree as it is (flag from the source) -/
+theorem token_exclusive_current (ops : List Op) (s : State Cfg.current.g) (h : run Cfg.current ops = .ok s) (d : Nat) :
+    (owners s.core.st d).length ≤ 1 :=
+  token_exclusive Cfg.current rfl ops s h d
+
+/-- grants only to requesters for the tree as it is -/
+theorem grant_only_to_requesters_current (ops : List Op) (s : State Cfg.current.g) (h : run Cfg.current ops = .ok s) (r : Rec)
+    (hr : r ∈ s.core.st.recs) (ht : r.tok ≠ .none) : r.asked = true :=
+  grant_only_to_requesters Cfg.current rfl ops s h r hr ht
 
 /-! ## teardown -/
 
